@@ -222,6 +222,28 @@ def scripts(cs):
         dict(op='mkdir', path='/a long directory name'), W('/a long directory name/g', blob(cs, 12)),
         dict(op='rename', path='/a long directory name', target='/ALONGD~1/inner', _expect='EINVAL'),
         dict(op='rename', path='/a long directory name', target='/elsewhere')]
+    # '.' / '..' components: in the middle of a path they are looked up as the directory's dot entries, so the operation is
+    # the one on the normalised path (`_as`); at the root they do not exist; as the FINAL component of a creating,
+    # removing or moving call they are refused and nothing changes
+    M = lambda op, norm: dict(op, _as=dict(op, **norm))
+    yield 'dot-components', [
+        dict(op='mkdir', path='/a'), dict(op='mkdir', path='/a/b'), W('/top.txt', blob(cs + 1, 21)), W('/a/mid.txt', blob(7, 22)),
+        M(W('/a/b/../n.txt', blob(cs + 3, 23)), dict(path='/a/n.txt')), M(dict(op='mkdir', path='/a/./c'), dict(path='/a/c')),
+        M(dict(op='rename', path='/a/b/../n.txt', target='/a/b/./m.txt'), dict(path='/a/n.txt', target='/a/b/m.txt')),
+        M(dict(op='mkdir', path='/a/c/../../d'), dict(path='/d')), M(dict(op='rename', path='/a/c', target='/d/../a/b/../../e'), dict(path='/a/c', target='/e')),
+        M(dict(op='unlink', path='/a/./mid.txt'), dict(path='/a/mid.txt')), M(dict(op='touch', path='/e/../a/b/../t'), dict(path='/a/t')),
+        dict(op='touch', path='/../x', _expect='FileNotFoundError'), dict(op='touch', path='/./x', _expect='FileNotFoundError'),
+        dict(op='mkdir', path='/a/../../y', _expect='FileNotFoundError'), dict(op='unlink', path='/../top.txt', _expect='FileNotFoundError'),
+        dict(op='touch', path='/..', _expect='ValueError'), dict(op='touch', path='/.', _expect='ValueError'),
+        dict(op='write', path='/..', data=b'x', via='bytes', _expect='ValueError'), dict(op='mkdir', path='/..', _expect='ValueError'),
+        dict(op='rename', path='/top.txt', target='/..', _expect='ValueError'), dict(op='rename', path='/d', target='/.', _expect='ValueError'),
+        dict(op='rmdir', path='/a/b/.', _expect='ValueError'), dict(op='rename', path='/a/b/..', target='/zz', _expect='ValueError'),
+        dict(op='rename', path='/a/b/.', target='/zz', _expect='ValueError'), dict(op='rmdir', path='/e/.', _expect='ValueError'),
+        dict(op='rmdir', path='/a/b/..', _expect=('ENOTEMPTY', 'ValueError')), dict(op='mkdir', path='/a/..', _expect='FileExistsError'),
+        dict(op='unlink', path='/a/..', _expect='IsADirectoryError'), dict(op='touch', path='/top.txt/..', _expect='NotADirectoryError'),
+        dict(op='rename', path='/e', target='/a/b/..', _expect='IsADirectoryError'),
+        M(dict(op='rmdir', path='/a/b/../../e'), dict(path='/e')), M(dict(op='rename', path='/a/./b', target='/a/../b2'), dict(path='/a/b', target='/b2')),
+        M(W('/b2/../b2/./deep.bin', blob(2 * cs, 24)), dict(path='/b2/deep.bin')), M(dict(op='rmdir', path='/d/../d'), dict(path='/d'))]
     yield 'growth-from-empty-and-far-seeks', [
         dict(op='touch', path='/t'), dict(op='truncate', path='/t', size=2 * cs + 1, buffering=0),
         dict(op='touch', path='/u'), dict(op='append', path='/u', data=blob(cs, 8)),
@@ -256,10 +278,10 @@ def run_scripts(ctx, R, FatFileSystem):
                         jop = jsonable_op(op)
                         history.append(jop)
                         # `_expect`: an outcome the plain model cannot derive (it does not know 8.3 aliases); the tree must not change
-                        want = op['_expect'] if '_expect' in op else fatops.apply_model(t, op)
+                        want = op['_expect'] if '_expect' in op else fatops.apply_model(t, op.get('_as', op))
                         got = fatops.apply_impl(fs, op)
                         ctx.stat('script-op-' + op['op'])
-                        if want != got:
+                        if (got not in want) if isinstance(want, tuple) else (want != got):
                             ctx.violation(f'{sig}/outcome:{op["op"]}', f'{label} on {ft} (cluster size {g.cs}): {jop} should give {want} but gave {got}',
                                           dict(geometry={k: v for k, v in vars(g).items()}, history=history))
                             good = False
